@@ -179,10 +179,28 @@ fn incremental_inner(input: &[u8], p: &P, rg: &RefGame, aspects: i64) -> Result<
 			break;
 		}
 	}
+	if aspects & A_BYTES != 0 && rg.n_ends == 2 && rg.junk_after_end == 0 && state.bytes_read() < raw_len {
+		// a doubled Game End is one more event in the raw element: a driver that keeps calling
+		// parse_event until all raw bytes are consumed must see it counted like any other event
+		let frames_before = state.frames().len();
+		let code = de::parse_event(&mut r, &mut state, opts).map_err(|x| e("inc-error", format!("parse_event on the second Game End failed: {}", x)))?;
+		if code != 0x39 {
+			return Err(e("inc-events", format!("second Game End reported as event {:#x}", code)));
+		}
+		if state.bytes_read() != raw_len {
+			return Err(e("bytes-read", format!("after the second Game End bytes_read() = {} but all {} raw bytes have been consumed", state.bytes_read(), raw_len)));
+		}
+		if r.handed != 15 + raw_len {
+			return Err(e("over-read", format!("after the second Game End the reader has handed out {} bytes, the raw element ends at {}", r.handed, 15 + raw_len)));
+		}
+		if state.frames().len() != frames_before {
+			return Err(e("frames-changed", "the second Game End changed the frame count".into()));
+		}
+	}
 	if aspects & A_FINAL != 0 {
 		// README: after the event loop, `U` announces metadata
 		if state.bytes_read() < raw_len {
-			// doubled Game End / junk inside raw: the one-shot reader consumes it; do the same by hand
+			// junk inside raw after Game End: the one-shot reader consumes it; do the same by hand
 			let mut buf = vec![0u8; raw_len - state.bytes_read()];
 			r.read_exact(&mut buf).map_err(|x| e("inc-error", format!("{}", x)))?;
 		}
